@@ -18,8 +18,8 @@ claim("C10", "SSA data-flow discovery of compare-and-set sites + result-tuple fo
       "Decides, for every compare-and-set function discovered by data flow (19 today) and every write-transaction wrapper (75), the structural clauses C10.1-C10.5 of DESIGN section 3: mismatch and applied results are distinguishable, true is reported only after a successful Commit and false only without one, the boolean is consumed at every call site, the composite CA operation short-circuits, the leader turns a false reply into an error. It does not decide that the comparison uses the current index for every pre-state nor atomicity across the two transactions of the composite CA operation.",
       "DESIGN.md section 3 C10")
 
-claim("C06", "SSA must-flow (index-bump must-pass-through with callee summaries, flag-flow and bulk-delete edge refinement) over every memdb write site; backward slice of every exported reader's index; path rules on the blocking-query loop",
-      "Decides C06.W (each of the 83 non-index memdb write sites of package state is followed on every feasible non-failing path, here or in every caller, by a bump of an index key its readers consult), C06.R2 (no exported reader derives its index only from the rows it iterates), C06.Q (blocking-query loop: meta after every run, abandon channel watched, exit only on index progress/timeout/error; reported index never 0). Does not decide per-entity precision of the bumped key nor wake-up under concurrency.",
+claim("C06", "SSA must-flow (index-bump must-pass-through with callee summaries, flag-flow and bulk-delete edge refinement) over every memdb write site; backward slice of every exported reader's index; path rules on the blocking-query loop; loop-accumulator rule on the service-exists argument of the per-service index lookup",
+      "Decides C06.X (the extinction index is chosen only when an accumulator updated on every iteration over the service's instances is empty), C06.W (each of the 83 non-index memdb write sites of package state is followed on every feasible non-failing path, here or in every caller, by a bump of an index key its readers consult), C06.R2 (no exported reader derives its index only from the rows it iterates), C06.Q (blocking-query loop: meta after every run, abandon channel watched, exit only on index progress/timeout/error; reported index never 0). Does not decide per-entity precision of the bumped key nor wake-up under concurrency.",
       "DESIGN.md section 3 C06")
 claim("C03", "SSA value provenance of the fields of the entry that reaches the kvs insert (CreateIndex/LockIndex/Session) under branch facts; must-not-pass-through on the equal branch; tombstone must-pass-through; prefix-index agreement",
       "Decides the mechanism clauses C03.1-C03.7 of the KV store (index funnel, no-op set writes nothing and compares the object it stores, create index inherited, lock counter and holder provenance, tombstone on delete, conditional verbs' boolean consumed, list/tree-delete use one prefix index). Equivalence with a sequential reference map over histories is not decided. One known finding (KF2).",
